@@ -91,10 +91,10 @@ func TestVerifC18SM2(t *testing.T) {
 			e := es[i]
 			want := ref.BaseMulFast(e.k)
 			ex, ey := e.get()
-			gx, gy := montBig(ex), montBig(ey)
-			canonical := limbsBelowP(ex) && limbsBelowP(ey)
+			gx, gy := zvMontBig(ex), zvMontBig(ey)
+			canonical := zvLimbsBelowP(ex) && zvLimbsBelowP(ey)
 			if want.Inf || gx.Cmp(want.X) != 0 || gy.Cmp(want.Y) != 0 || !canonical {
-				r.Violation("table-entry-wrong:"+tbls[e.t].name+":"+phase, hk.D{"entry": e.where, "phase": phase, "scalar": e.k.Text(16), "got_x": gx.Text(16), "got_y": gy.Text(16), "want": ptHex(want), "canonical_limbs": canonical})
+				r.Violation("table-entry-wrong:"+tbls[e.t].name+":"+phase, hk.D{"entry": e.where, "phase": phase, "scalar": e.k.Text(16), "got_x": gx.Text(16), "got_y": gy.Text(16), "want": zvPtHex(want), "canonical_limbs": canonical})
 			}
 			r.Eval("table:" + tbls[e.t].name + fmt.Sprintf(":%d:%s", i%64, phase))
 		})
@@ -106,14 +106,14 @@ func TestVerifC18SM2(t *testing.T) {
 	// variable-point multiplication), then walk them again
 	{
 		rng := hk.NewRNG(hk.Seed(), "c18hostile")
-		P := fromRef(ref.BaseMulFast(randScalarI(rng)), bi(3))
-		small := []*big.Int{bi(0), bi(1), bi(2), bi(15), bi(16), bi(8191), new(big.Int).Lsh(bi(1), 13), new(big.Int).Lsh(bi(1), 14)}
+		P := zvFromRef(ref.BaseMulFast(zvRandScalarI(rng)), zvBi(3))
+		small := []*big.Int{zvBi(0), zvBi(1), zvBi(2), zvBi(15), zvBi(16), zvBi(8191), new(big.Int).Lsh(zvBi(1), 13), new(big.Int).Lsh(zvBi(1), 14)}
 		for _, sv := range small {
 			for q := 0; q < 12; q++ {
 				g := rng.Bytes(32)
 				switch q % 4 {
 				case 1:
-					g = ref.B32(new(big.Int).Lsh(bi(int64(1+rng.Intn(63))), uint(4+rng.Intn(240))))
+					g = ref.B32(new(big.Int).Lsh(zvBi(int64(1+rng.Intn(63))), uint(4+rng.Intn(240))))
 				case 2:
 					g = make([]byte, 32)
 				}
@@ -134,13 +134,13 @@ func TestVerifC18SM2(t *testing.T) {
 	}
 	walk("after-hostile-use")
 	// curve constants used by the arithmetic
-	if g, _ := toRef(sm2G); !g.Eq(ref.G()) {
+	if g, _ := zvToRef(sm2G); !g.Eq(ref.G()) {
 		r.Violation("constant-wrong:sm2G", hk.D{})
 	}
-	if rawBig(sm2B).Cmp(ref.SM2B) != 0 {
+	if zvRawBig(sm2B).Cmp(ref.SM2B) != 0 {
 		r.Violation("constant-wrong:sm2B", hk.D{})
 	}
-	if rawBig(sm2ElementOne).Cmp(big.NewInt(1)) != 0 {
+	if zvRawBig(sm2ElementOne).Cmp(big.NewInt(1)) != 0 {
 		r.Violation("constant-wrong:sm2ElementOne", hk.D{})
 	}
 	pr := getCurve().Params()
@@ -159,7 +159,7 @@ func TestVerifC18SM2(t *testing.T) {
 
 // limbsBelowP reports whether the raw limbs (as an integer) are < p, i.e. a
 // canonical Montgomery residue.
-func limbsBelowP(l *[4]uint64) bool {
+func zvLimbsBelowP(l *[4]uint64) bool {
 	v := new(big.Int)
 	for i := 3; i >= 0; i-- {
 		v.Lsh(v, 64)
